@@ -66,3 +66,10 @@ Proof. exact aconv_ok. Qed.
 Theorem c07_model_state_is_the_struct : state_tied = true.
 Proof. vm_compute. reflexivity. Qed.
 
+(* blocking connection, write half FAILING inside the keep-alive reply (after any number of its bytes, with any error): the
+   keep-alive is handed over (WOk) only when the whole reply has reached the transport; after a failure what reached it is a
+   strict prefix of the reply and the failure is what the caller gets instead of the packet *)
+Theorem c07_reply_whole_or_the_error_is_returned : forall pong ws d r ws',
+  reply_then_return pong ws = (d, r, ws') ->
+  (r = WOk -> d = pong) /\ (forall e, r = WErr e -> exists rest, pong = d ++ rest /\ rest <> []).
+Proof. exact reply_whole_or_error. Qed.
